@@ -35,6 +35,14 @@ let check_wops (fields : sexp list) : verdict * string option =
         n >= 4 && (match drop (n - 4) body with Some rest -> framed rest | None -> false)
     | _ -> false in
   let sent = List.concat writes in
+  if field_opt "failat" fields <> None then begin
+    (* a transient fault (one Write call failed and delivered nothing, the calls went on): the writer model knows the
+       permanently broken transport only, so this class is judged by the oracle alone *)
+    if panicked then (OracleFail "the Writer panicked after a Write call of the transport had failed", None)
+    else if not (framed sent) then
+      (OracleFail "one Write call of the transport failed (delivering nothing) and the bytes delivered before and after it are not a concatenation of complete length-framed messages: part of a message reached the transport without the rest", None)
+    else (Ok_, None)
+  end else
   if not mpanic && (panicked || not (framed sent)) then
     (OracleFail "the bytes that reached the transport are not a concatenation of complete length-framed messages (or the Writer panicked)", None)
   else if mpanic <> panicked || (not mpanic && (List.concat w'.w_sink <> sent || mres <> results)) then
